@@ -61,9 +61,9 @@ def main():
                     for l in lines:
                         print(f"seed {seed} {pid}: {l[:300]}", flush=True)
                         if l.startswith("VIOLATION"):
-                            rp = l.split("replay=")[1].split()[0]
-                            if os.path.exists(rp):
-                                shutil.copy(rp, os.path.join(out_dir, f"seed{seed}-" + os.path.basename(rp)))
+                            rfile = l.split("replay=")[1].split()[0]
+                            if os.path.exists(rfile):
+                                shutil.copy(rfile, os.path.join(out_dir, f"seed{seed}-" + os.path.basename(rfile)))
                     bad.append((seed, pid))
             print(f"seed {seed}: done", flush=True)
 
